@@ -277,6 +277,15 @@ def _structural_part(chk, m):
         bad = loop.iter is not m.seg_call or any(w in seg_src for w in ("sorted(", "reversed(", "[::-1]"))
         chk.require(not bad, "R02.4", "segment-order-preserved", f"segments are reordered: {seg_src}",
                     f"{f.module.relpath}:{loop.lineno}")
+    # between the visible-record builder and the file: the output buffer keeps the order (C10 R10.1 / R10.2)
+    from . import c10
+    from ..report import Check
+    tmp = Check("C10", "quick", 0, chk.ix, chk.cg, quiet=True)
+    c10.r10_1_buffer(tmp)
+    for o in tmp.obs:
+        if o.rule == "R10.2" or "copied-after-buffered-bytes" in o.key or "one-copy" in o.key:
+            o.rule = "R02.4"
+            chk.obs.append(o)
     if m.error is not None and not chk.violations():
         raise m.error
 
